@@ -957,7 +957,10 @@ func (r *runner) doInterest(op *Op) {
 	// A cached /localhost packet may have "answered" an Interest from a non-local face: the scope rule
 	// stops the Data, yet the forwarder has consumed the Interest (as NFD does). Whether that happened
 	// depends on which cached packet the lookup picked, so the record is only a "may" record.
-	if G.scope == defn.NonLocal && r.sc.Config.CsServe && !hadRec {
+	// (the cache is consulted unless this face's Interest is already pending - which the model only knows for sure
+	// when its record is a clean one)
+	certainRec := hadRec && ent.in[op.Face].clean && now < ent.in[op.Face].mustUntil
+	if G.scope == defn.NonLocal && r.sc.Config.CsServe && !certainRec {
 		for _, n := range anyAcc {
 			if isLocalhost(n) {
 				accepted = false
